@@ -118,7 +118,41 @@ var c20PairKinds = []struct{ Name, SQLa, SQLb, TypesB string }{
 	{"where_only", "SELECT id, a FROM stream WHERE a + b > 4", "SELECT id, b FROM stream WHERE a + b > 4", "string"},
 }
 
+// genC20Registry: instance B uses a custom function that its client unregisters and registers
+// again while instance A's rows flow (F14); A never uses it. Both must equal their solo runs.
+func genC20Registry(rng *simrt.Rand) *Case {
+	c := &Case{X: map[string]any{}}
+	n := 6 + rng.Intn(10)
+	fn := []string{"verif_twice", "verif_fn2"}[rng.Intn(2)]
+	var opsA, opsB []Op
+	for i := 0; i < n; i++ {
+		opsA = append(opsA, Op{K: "emitsync", I: 0, Row: Row{"id": fmt.Sprintf("r%03d", i), "a": rng.Intn(6), "b": rng.Intn(6), "s": "ab"}, Tag: fmt.Sprintf("r%03d", i)})
+		opsB = append(opsB, Op{K: "emitsync", I: 1, Row: Row{"id": fmt.Sprintf("r%03d", i), "a": rng.Intn(6)}, Tag: fmt.Sprintf("r%03d", i)})
+		if i == n/3 {
+			opsB = append(opsB, Op{K: "unregfn", T: fn})
+		}
+		if i == 2*n/3 {
+			opsB = append(opsB, Op{K: "regfn", T: fn})
+		}
+	}
+	c.Insts = []InstSpec{
+		{SQL: "SELECT id, a + b AS ab, upper(s) AS us, abs(a - b) AS d FROM stream WHERE a >= 0", Sinks: []SinkSpec{{Mode: "sync"}}},
+		{SQL: fmt.Sprintf("SELECT id, %s(a) AS t FROM stream", fn), Sinks: []SinkSpec{{Mode: "sync"}}, Funcs: []string{fn}},
+	}
+	c.Clients = [][]Op{opsA, opsB}
+	c.Policy = genPolicy(rng, []time.Duration{time.Microsecond}, false)
+	c.Settle = int64(time.Second)
+	c.MaxSteps = 200000
+	c.FaultFree = true
+	c.Variant = "paired"
+	c.X["kind"] = "fn_registry"
+	return c
+}
+
 func genC20Paired(rng *simrt.Rand, tier string) *Case {
+	if rng.Bool(0.25) {
+		return genC20Registry(rng)
+	}
 	c := &Case{X: map[string]any{}}
 	kind := c20PairKinds[rng.Intn(len(c20PairKinds))]
 	n := 5 + rng.Intn(12)
@@ -309,6 +343,9 @@ func runC20Paired(e *Env) {
 		return
 	}
 	e.R.Summary = map[string]any{"kind": e.C.xStr("kind")}
+	if e.C.xStr("kind") == "fn_registry" {
+		e.Fault("function_unregistered_while_rows_flow")
+	}
 	for i := range e.Insts {
 		e.R.Summary[fmt.Sprintf("out%d", i)] = c20Outputs(e, i)
 	}
